@@ -160,11 +160,11 @@ def _fns_b():
     return [ConsolidatorBase.__init__, ConsolidatorBase.shape.fget, ConsolidatorBase.chunks.fget, ConsolidatorBase.consume_stream_datum]
 
 
-register(Harness("c36_concat", "C36", make_concat, {"quick": dict(K=3, shards=1, budget_s=240, per_path_s=30), "thorough": dict(K=3, shards=1, budget_s=1200, per_path_s=60)},
+register(Harness("c36_concat", "C36", make_concat, {"quick": dict(K=3, shards=1, budget_s=240, per_path_s=30), "thorough": dict(K=3, shards=1, budget_s=600, per_path_s=60)},
                  goals=["accepted-contiguous", "rejected-gap", "rejected-mixed", "out-of-order"], functions=_fns_a, mode="traced",
                  symbolic="1..3 stream datums: index start/stop and seq_num start are unbounded symbolic integers (non-empty, seq span = index span), descriptor and resource each one of two values, any order",
                  out_of_bound="more than 3 datums; empty datums (start == stop); datums whose seq span differs from their index span", require_exhaustive=True))
-register(Harness("c36_chunks", "C36", make_chunks, {"quick": dict(K=2, lmax=2, cmax=2, smax=3, mults=[0, 2], classes=False, shards=32, budget_s=300, per_path_s=30), "thorough": dict(K=3, cmax=3, smax=4, shards=128, budget_s=3000, per_path_s=30)},
+register(Harness("c36_chunks", "C36", make_chunks, {"quick": dict(K=2, lmax=2, cmax=2, smax=3, mults=[0, 2], classes=False, shards=32, budget_s=300, per_path_s=30), "thorough": dict(K=2, lmax=3, cmax=2, smax=3, shards=64, budget_s=3000, per_path_s=30)},
                  goals=["consumed", "several-chunks", "chunk_shape-too-long-rejected"], functions=_fns_b, mode="schedule",
                  symbolic="class in {ConsolidatorBase, CSVConsolidator (thorough tier)}; join_method in {stack, concat}; join_chunks in {True, False} (and the class defaults for CSV); chunk_shape of length 0..3 with entries 1..cmax; "
                  "multiplier in {none,1,2,3} (quick: none, 2); datum shape of 0..2 dims with sizes 1..smax; 0..K consumed datums of 1..lmax rows, contiguous from row 0, optionally each with a trailing skipped frame",
